@@ -536,13 +536,46 @@ mod serde {
 
 	use super::{DataEntry, Directory, DirectoryEntry, Name, Resources};
 
-	// Rename the toplevel directory ids to their names
-	struct NamedDirectoryEntry<'a>(DirectoryEntry<'a>);
-	impl<'a> Serialize for NamedDirectoryEntry<'a> {
+	use super::{Entry, FSCK_MAX_DEPTH};
+	use std::cell::Cell;
+
+	// A tree has no more entries than fit in its section and is not nested deeper than the consistency check allows,
+	// directories which contain themselves are cut off there instead of being followed without bound
+	struct Walk<'a, 'b> {
+		dir: Directory<'a>,
+		budget: &'b Cell<usize>,
+		depth: u32,
+		// Rename the toplevel directory ids to their names
+		toplevel: bool,
+	}
+	struct WalkEntry<'a, 'b> {
+		entry: DirectoryEntry<'a>,
+		budget: &'b Cell<usize>,
+		depth: u32,
+		toplevel: bool,
+	}
+	impl<'a, 'b> Serialize for Walk<'a, 'b> {
+		fn serialize<S: Serializer>(&self, serializer: S) -> Result<S::Ok, S::Error> {
+			let entries = self.dir.entries().take_while(|_| {
+				let budget = self.budget.get();
+				self.budget.set(budget.saturating_sub(1));
+				budget > 0
+			});
+			serializer.collect_seq(entries.map(|entry| WalkEntry { entry, budget: self.budget, depth: self.depth, toplevel: self.toplevel }))
+		}
+	}
+	impl<'a, 'b> Serialize for WalkEntry<'a, 'b> {
 		fn serialize<S: Serializer>(&self, serializer: S) -> Result<S::Ok, S::Error> {
 			let mut state = serializer.serialize_struct("DirectoryEntry", 2)?;
-			state.serialize_field("name", &self.0.name().ok().map(|name| name.rename_id(&super::RSRC_TYPES)))?;
-			state.serialize_field(if self.0.is_dir() { "directory" } else { "data" }, &self.0.entry().ok())?;
+			let name = self.entry.name().ok();
+			state.serialize_field("name", &if self.toplevel { name.map(|name| name.rename_id(&super::RSRC_TYPES)) } else { name })?;
+			match self.entry.entry() {
+				Ok(Entry::Directory(dir)) if self.depth + 1 < FSCK_MAX_DEPTH => {
+					state.serialize_field("directory", &Some(Walk { dir, budget: self.budget, depth: self.depth + 1, toplevel: false }))?;
+				},
+				Ok(Entry::DataEntry(data)) => state.serialize_field("data", &Some(data))?,
+				_ => state.serialize_field(if self.entry.is_dir() { "directory" } else { "data" }, &None::<()>)?,
+			}
 			state.end()
 		}
 	}
@@ -550,14 +583,14 @@ mod serde {
 	impl<'a> Serialize for Resources<'a> {
 		fn serialize<S: Serializer>(&self, serializer: S) -> Result<S::Ok, S::Error> {
 			match self.root() {
-				Ok(root) => serializer.collect_seq(root.entries().map(NamedDirectoryEntry)),
+				Ok(dir) => Walk { dir, budget: &Cell::new(super::fsck_budget(*self)), depth: 0, toplevel: true }.serialize(serializer),
 				Err(_) => serializer.serialize_none(),
 			}
 		}
 	}
 	impl<'a> Serialize for Directory<'a> {
 		fn serialize<S: Serializer>(&self, serializer: S) -> Result<S::Ok, S::Error> {
-			serializer.collect_seq(self.entries())
+			Walk { dir: *self, budget: &Cell::new(super::fsck_budget(self.resources())), depth: 0, toplevel: false }.serialize(serializer)
 		}
 	}
 	impl<'a> Serialize for Name<'a> {
@@ -571,10 +604,7 @@ mod serde {
 	}
 	impl<'a> Serialize for DirectoryEntry<'a> {
 		fn serialize<S: Serializer>(&self, serializer: S) -> Result<S::Ok, S::Error> {
-			let mut state = serializer.serialize_struct("DirectoryEntry", 2)?;
-			state.serialize_field("name", &self.name().ok())?;
-			state.serialize_field(if self.is_dir() { "directory" } else { "data" }, &self.entry().ok())?;
-			state.end()
+			WalkEntry { entry: *self, budget: &Cell::new(super::fsck_budget(self.resources())), depth: 0, toplevel: false }.serialize(serializer)
 		}
 	}
 	impl<'a> Serialize for DataEntry<'a> {
